@@ -5,6 +5,7 @@ CONSTANTS
  MaxFaults = 2
  MaxCrashes = 1
  MaxIdxLoss = 0
+ SyncFlush = TRUE
  InlineAt = 3
  Interval = 3
  MBs = {80}
